@@ -343,12 +343,13 @@ JudgeStr(s0, e) ==
 (*        CleanupUnused; nothing is ever rescheduled): shutdown() waits    *)
 (*        for the sleep in progress, submitted tasks queue behind the      *)
 (*        sleeps of the ten start-up tasks, every content type is sampled  *)
-(*        exactly once.  Guards, by claim: shutdown took time, but no more *)
-(*        than the longest configured interval; a pending submitted task   *)
-(*        while a start-up task is still asleep; fewer samples than the    *)
-(*        period asks for, but at least one once the worker got there.     *)
+(*        exactly once.  Guards, by claim: shutdown took time, but ended   *)
+(*        no later than the moment the sleeping FIFO worker finishes what  *)
+(*        it was handed (busy); a task not yet counted as executed before  *)
+(*        that moment; fewer samples than the period asks for, but no more *)
+(*        than one per content type (+ the submitted MonitorUsage tasks).  *)
 (***************************************************************************)
-JG0 == [started |-> FALSE, running |-> FALSE, t0 |-> 0, handed |-> 0, extra |-> 0, monsub |-> 0, te |-> 0]
+JG0 == [started |-> FALSE, running |-> FALSE, t0 |-> 0, handed |-> 0, extra |-> 0, busy |-> 0, monsub |-> 0, te |-> 0]
 StartupSpan(cfg) == 8 * cfg.mon + cfg.press + cfg.clean
 \* the reschedule delay the as-is worker sleeps inside a submitted task
 SleepOf(cfg, e) == CASE e.op = "press" -> cfg.press
@@ -362,11 +363,14 @@ JudgeBg(s0, cfg, e) ==
       stopped == s0.started /\ ~s0.running
       isSub == e.op \in {"submit", "press", "tune"}
       nsub  == IF e.op = "tune" THEN 8 ELSE 1
+      \* busy = the moment the as-is worker (FIFO, sleeping inside the tasks) has finished everything handed to it
       s1 == CASE e.op = "start" ->
-                   IF ~s0.started THEN [s0 EXCEPT !.started = TRUE, !.running = TRUE, !.t0 = e.now, !.handed = @ + 10]
+                   IF ~s0.started THEN [s0 EXCEPT !.started = TRUE, !.running = TRUE, !.t0 = e.now, !.handed = @ + 10,
+                                                  !.busy = e.now + s0.extra + StartupSpan(cfg)]
                    ELSE IF stopped THEN [s0 EXCEPT !.running = e.run] ELSE s0
               [] e.op = "shutdown" -> [s0 EXCEPT !.running = FALSE]
               [] isSub /\ ok -> [s0 EXCEPT !.handed = @ + nsub, !.extra = @ + SleepOf(cfg, e),
+                                           !.busy = IF s0.running THEN Max2p(@, e.now) + SleepOf(cfg, e) ELSE @,
                                            !.monsub = IF e.op = "submit" /\ e.task = "monitor" THEN @ + 1 ELSE @]
               [] OTHER -> s0
       \* B: lifecycle.  A second start after a shutdown may be refused (the code documents "already started")
@@ -374,11 +378,10 @@ JudgeBg(s0, cfg, e) ==
                 [] isSub -> (ok \/ (stopped /\ HasF(r0, "err"))) /\ e.run = s1.running
                 [] OTHER -> ok /\ e.run = s1.running
       elapsed == e.now - s1.t0
-      span  == StartupSpan(cfg) + s1.extra
       \* B: whatever was handed to a running worker has been executed once the driver has yielded to it
-      prompt == IF ~s1.running \/ e.te >= s1.handed THEN "ok" ELSE IF elapsed < span THEN "FX06h" ELSE "bad"
+      prompt == IF ~s1.running \/ e.te >= s1.handed THEN "ok" ELSE IF e.now <= s1.busy THEN "FX06h" ELSE "bad"
       \* B: shutdown does not wait for a reschedule delay
-      quick == IF e.op # "shutdown" \/ e.dt = 0 THEN "ok" ELSE IF e.dt <= span THEN "FX06h" ELSE "bad"
+      quick == IF e.op # "shutdown" \/ e.dt = 0 THEN "ok" ELSE IF e.now <= s0.busy THEN "FX06h" ELSE "bad"
       \* B: MonitorUsage{interval} samples periodically (one period of slack)
       want  == IF s1.running /\ cfg.mon > 0 THEN elapsed \div cfg.mon ELSE 0
       period == IF \A i \in 1..8 : e.samples[i] + 1 >= want THEN "ok"
@@ -393,6 +396,11 @@ JudgeBg(s0, cfg, e) ==
 (*        at all, stats() answers all zeros when it can take neither lock. *)
 (*        Guard: several threads, allocations (= reuses + misses) below    *)
 (*        the number of allocate calls.                                    *)
+(* FX06i  SizedMemoryPool::allocate_for_type decides "reuse" from a pool   *)
+(*        size read BEFORE the allocation: concurrent allocations all count *)
+(*        the same idle buffer.  Guard: several threads, every call counted *)
+(*        (reuses + misses = calls), but more reuses of a size class than   *)
+(*        buffers of that class were ever returned (conservation broken).   *)
 (***************************************************************************)
 CountOps(ops, kind, c) == Cardinality({i \in 1..Len(ops) : ops[i][2] = kind /\ ops[i][3] = c})
 HamOpsOk(ops) ==
@@ -415,8 +423,9 @@ JudgeHammer(e) ==
         IF ~(per(1).lost \/ per(2).lost) THEN "ok" ELSE IF e.threads >= 2 THEN "FX06f" ELSE "bad"}
   ELSE
     LET per(i, c) == LET o == e.st[i] calls == CountOps(e.ops, 0, c) frees == CountOps(e.ops, 1, c) IN
-                     o[1] = calls /\ o[3] + o[4] = calls /\ o[3] <= frees
-    IN {Cls(HamOpsOk(e.ops)), Cls(per(1, 1) /\ per(6, 2) /\ e.tot[1] = CountOps(e.ops, 0, 1) + CountOps(e.ops, 0, 2))}
+                     [ok |-> o[1] = calls /\ o[3] + o[4] = calls, over |-> o[3] > frees]
+    IN {Cls(HamOpsOk(e.ops)), Cls(per(1, 1).ok /\ per(6, 2).ok /\ e.tot[1] = CountOps(e.ops, 0, 1) + CountOps(e.ops, 0, 2)),
+        IF ~(per(1, 1).over \/ per(6, 2).over) THEN "ok" ELSE IF e.threads >= 2 THEN "FX06i" ELSE "bad"}
 JudgeCintern(e) ==
   {Cls(\A i, j \in 1..Len(e.ops) : e.ops[i][3] = e.ops[i][2] /\ ((e.ops[i][2] = e.ops[j][2]) <=> (e.ops[i][4] = e.ops[j][4])))}
 
